@@ -155,6 +155,8 @@ def run_case(case, workdir):
 
 
 def shrink_candidates(case):
+    if case.get("kind") == "blackjax":
+        return []  # the scenario is already small; the generic shrinkers assume the numpy model
     scn = scenario_of(case)
     base = {k: v for k, v in case.items() if k != "scenario"}
     return [{**base, "scenario": s, "crash": False} for s in shrink_scenario_candidates(scn)] + [{**base, "scenario": scn, "crash": False}]
